@@ -12082,7 +12082,9 @@ Tree_get_node_argument(Tree *self, PyObject *args, int *node)
     if (Tree_check_state(self) != 0) {
         goto out;
     }
-    if (!PyArg_ParseTuple(args, "I", node)) {
+    /* "i" (not "I"): values outside the range of int raise OverflowError instead of
+     * wrapping modulo 2^32 onto a valid id */
+    if (!PyArg_ParseTuple(args, "i", node)) {
         goto out;
     }
     if (Tree_check_bounds(self, *node)) {
@@ -12116,7 +12118,7 @@ Tree_is_descendant(Tree *self, PyObject *args)
     if (Tree_check_state(self) != 0) {
         goto out;
     }
-    if (!PyArg_ParseTuple(args, "II", &u, &v)) {
+    if (!PyArg_ParseTuple(args, "ii", &u, &v)) {
         goto out;
     }
     if (Tree_check_bounds(self, (tsk_id_t) u)) {
@@ -12380,7 +12382,7 @@ Tree_get_next_sample(Tree *self, PyObject *args)
     if (Tree_check_state(self) != 0) {
         goto out;
     }
-    if (!PyArg_ParseTuple(args, "I", &in_index)) {
+    if (!PyArg_ParseTuple(args, "i", &in_index)) {
         goto out;
     }
     num_samples = (int) tsk_treeseq_get_num_samples(self->tree->tree_sequence);
@@ -13637,6 +13639,11 @@ LdCalculator_get_r2(LdCalculator *self, PyObject *args)
         goto out;
     }
     if (!PyArg_ParseTuple(args, "nn", &a, &b)) {
+        goto out;
+    }
+    if (a > TSK_MAX_ID || b > TSK_MAX_ID || a < TSK_NULL || b < TSK_NULL) {
+        /* do not let the cast to tsk_id_t wrap a huge index onto a valid site */
+        handle_library_error(TSK_ERR_SITE_OUT_OF_BOUNDS);
         goto out;
     }
     err = tsk_ld_calc_get_r2(self->ld_calc, (tsk_id_t) a, (tsk_id_t) b, &r2);
